@@ -14,7 +14,10 @@ use midnight_proofs::{
         commitment::{Guard, PolynomialCommitmentScheme},
         kzg::{
             params::{ParamsKZG, ParamsVerifierKZG},
-            verif_hooks::{verif_prepare_trace_on, verif_sets_prover, verif_sets_verifier, verif_take_prepare_trace},
+            verif_hooks::{
+                verif_open_trace_on, verif_prepare_trace_on, verif_sets_prover, verif_sets_verifier, verif_take_open_trace,
+                verif_take_prepare_trace, VerifOpenTrace,
+            },
             KZGCommitmentScheme,
         },
         Coeff, CommitmentLabel, Error, EvaluationDomain, Polynomial, ProverQuery, VerifierQuery,
@@ -28,6 +31,56 @@ use serde_json::json;
 use crate::tr::{self, RecT};
 
 pub type Kzg = KZGCommitmentScheme<Bls12>;
+
+thread_local! {
+    /// Size of the explicit rayon pool inside which `multi_open` / `multi_prepare` / the pairing
+    /// check run (0 = the global pool).
+    static POOL: std::cell::Cell<usize> = const { std::cell::Cell::new(0) };
+}
+
+/// Selects the rayon pool of the following prover / verifier runs (0 = the global pool).
+pub fn set_pool(t: usize) {
+    POOL.with(|p| p.set(t));
+}
+
+pub fn pool() -> usize {
+    POOL.with(|p| p.get())
+}
+
+/// ` pool=<t>` appended to the request lines of runs inside an explicit pool (the model's answer
+/// does not depend on it: completeness must hold for every thread count).
+pub fn pool_tag() -> String {
+    match pool() {
+        0 => String::new(),
+        t => format!(" pool={t}"),
+    }
+}
+
+fn pool_kind() -> String {
+    match pool() {
+        0 => String::new(),
+        t => format!("pool{t}-"),
+    }
+}
+
+/// Runs `f` inside a fresh rayon pool of the selected size (`rayon::current_num_threads()` = that
+/// size for everything `f` calls); the thread-local recorders are read inside `f`, on the same
+/// worker thread.
+fn in_pool<R: Send>(f: impl FnOnce() -> R + Send) -> R {
+    match pool() {
+        0 => f(),
+        t => rayon::ThreadPoolBuilder::new().num_threads(t).build().expect("rayon pool").install(f),
+    }
+}
+
+/// The real `eval_polynomial` inside a rayon pool of `t` threads.
+pub fn eval_in_pool(t: usize, poly: &[Fq], x: Fq) -> Result<Fq, String> {
+    let old = pool();
+    set_pool(t);
+    let r = in_pool(|| catch(|| eval_polynomial(poly, x)));
+    set_pool(old);
+    r
+}
 
 pub fn hexl(v: &[Fq]) -> String {
     if v.is_empty() {
@@ -107,11 +160,18 @@ pub struct ProverOut {
     pub res: Result<Vec<u8>, String>,
     pub ch: Vec<Fq>,
     pub ev: String,
+    /// the intermediate polynomials of `multi_open` (trace hook)
+    pub otrace: Option<VerifOpenTrace>,
 }
 
 /// Runs the real `multi_open` on `(poly index, point)` queries.
 pub fn run_prover(st: &Setup, polys: &[Polynomial<Fq, Coeff>], pq: &[(usize, Fq)], salt: u32) -> ProverOut {
+    in_pool(|| run_prover_here(st, polys, pq, salt))
+}
+
+fn run_prover_here(st: &Setup, polys: &[Polynomial<Fq, Coeff>], pq: &[(usize, Fq)], salt: u32) -> ProverOut {
     let _ = tr::take();
+    verif_open_trace_on(true);
     let r = catch(|| {
         let mut t = RecT::init();
         t.common(&salt).unwrap();
@@ -119,6 +179,9 @@ pub fn run_prover(st: &Setup, polys: &[Polynomial<Fq, Coeff>], pq: &[(usize, Fq)
         Kzg::multi_open(&st.params, &qs, &mut t).map(|_| t.finalize())
     });
     let (ch, ev) = tr::take();
+    let mut ots = verif_take_open_trace();
+    verif_open_trace_on(false);
+    let otrace = if ots.len() == 1 { ots.pop() } else { None };
     let res = match r {
         Ok(Ok(bytes)) => Ok(bytes),
         Ok(Err(Error::DuplicatedQuery)) => Err("err dup".to_string()),
@@ -126,7 +189,7 @@ pub fn run_prover(st: &Setup, polys: &[Polynomial<Fq, Coeff>], pq: &[(usize, Fq)
         Ok(Err(Error::SamplingError)) => Err("err sampling".to_string()),
         Err(m) => Err(format!("panic: {m}")),
     };
-    ProverOut { res, ch, ev }
+    ProverOut { res, ch, ev, otrace }
 }
 
 /// The elements of a proof: `f_com`, the `q` evaluations, `pi`.
@@ -218,6 +281,10 @@ pub fn build_vqs<'a>(coms: &'a [G1Projective], vqs: &[VQ]) -> Vec<VerifierQuery<
 /// Runs the real `multi_prepare` and the final pairing check. `f`/`pi` are the (possibly
 /// tampered) group elements inside `proof`, used only to name the bases of the deferred MSM.
 pub fn run_verifier(st: &Setup, coms: &[G1Projective], vqs: &[VQ], proof: &[u8], f: &G1Projective, pi: &G1Projective, salt: u32) -> VerifierOut {
+    in_pool(|| run_verifier_here(st, coms, vqs, proof, f, pi, salt))
+}
+
+fn run_verifier_here(st: &Setup, coms: &[G1Projective], vqs: &[VQ], proof: &[u8], f: &G1Projective, pi: &G1Projective, salt: u32) -> VerifierOut {
     let _ = tr::take();
     verif_prepare_trace_on(true);
     let r = catch(|| {
@@ -415,8 +482,8 @@ pub fn prove_base(ctx: &mut Ctx, b: &Base, salt: u32, nforeign: usize, rng: &mut
         built.ppolys.iter().map(|p| hexl(p)).collect::<Vec<_>>().join(";"),
         if built.pq.is_empty() { "-".to_string() } else { built.pq.iter().map(|&(i, p)| format!("{}@{}", i, fe_hex(&p))).collect::<Vec<_>>().join(",") },
         hexl(&out.ch)
-    );
-    let kind = format!("prove-{}", b.name);
+    ) + &pool_tag();
+    let kind = format!("prove-{}{}", pool_kind(), b.name);
     match &out.res {
         Err(e) => {
             let short = if e.starts_with("panic") { "panic".to_string() } else { e.clone() };
@@ -451,6 +518,54 @@ pub fn prove_base(ctx: &mut Ctx, b: &Base, salt: u32, nforeign: usize, rng: &mut
             };
             let ans = format!("ev={} f={} qe={} pi={}", out.ev, affine_str(&parts.f), hexl(&parts.qe), affine_str(&parts.pi));
             ctx.case(&kind, true, &line, &ans);
+            // the prover's intermediate polynomials (q_polys per set, f_poly, final_poly, v, pi_poly;
+            // trace hook inside multi_open) against the model prover: length, lowest and highest
+            // coefficient, value at a test point
+            if let (Some(ot), true) = (&out.otrace, out.ch.len() == 4) {
+                let z = out.ch[3] * out.ch[3] + Fq::from(3u64);
+                let fq_vec = |v: &Vec<Vec<u8>>| -> Vec<Fq> { v.iter().map(|b| fq_of(b)).collect() };
+                let digest = |v: &Vec<Vec<u8>>| -> String {
+                    let c = fq_vec(v);
+                    if c.is_empty() {
+                        "0:-:-:0x0".to_string()
+                    } else {
+                        format!("{}:{}:{}:{}", c.len(), fe_hex(&c[0]), fe_hex(&c[c.len() - 1]), fe_hex(&horner(&c, z)))
+                    }
+                };
+                let oline = format!(
+                    "otrace {} P={} Q={} X={} Z={}",
+                    b.k,
+                    built.ppolys.iter().map(|p| hexl(p)).collect::<Vec<_>>().join(";"),
+                    built.pq.iter().map(|&(i, p)| format!("{}@{}", i, fe_hex(&p))).collect::<Vec<_>>().join(","),
+                    hexl(&out.ch),
+                    fe_hex(&z)
+                ) + &pool_tag();
+                let oans = format!(
+                    "q={} f={} fin={} v={} pi={}",
+                    ot.q_polys.iter().map(|q| digest(q)).collect::<Vec<_>>().join("|"),
+                    digest(&ot.f_poly),
+                    digest(&ot.final_poly),
+                    if ot.v.is_empty() { "-".to_string() } else { fe_hex(&fq_of(&ot.v)) },
+                    digest(&ot.pi_poly)
+                );
+                ctx.case(&format!("otrace-{}{}", pool_kind(), if b.name == "rand" { "rand" } else { "structured" }), true, &oline, &oans);
+                // multi_open_matches_verifier on the real prover: the q evaluations written into the
+                // proof are the values of q_polys at x3, and v is the value of final_poly at x3
+                let x3 = out.ch[2];
+                let qs_ok = ot.q_polys.len() == parts.qe.len() && ot.q_polys.iter().zip(parts.qe.iter()).all(|(q, e)| horner(&fq_vec(q), x3) == *e);
+                let v_ok = !ot.v.is_empty() && horner(&fq_vec(&ot.final_poly), x3) == fq_of(&ot.v);
+                ctx.count(&format!("prover:v=final_poly(x3):{}", v_ok));
+                // (a wrong `v` alone does not reach the proof - the quotient by X - x3 does not depend on
+                // it - and is reported by the `otrace` line only)
+                if !qs_ok {
+                    crate::ofail(
+                        ctx,
+                        &format!("prover-eval-mismatch:{}{}", pool_kind(), shape_class(b)),
+                        "multi_open writes a q evaluation into the proof that is not the value of its own q polynomial at x3",
+                        json!({"shape": shape_of(b), "pool": pool(), "q_evals_ok": qs_ok, "v_ok": v_ok, "line": line}),
+                    );
+                }
+            }
             // a repeated (polynomial reference, point) pair must be refused
             if (0..built.pq.len()).any(|i| (0..i).any(|j| built.pq[i] == built.pq[j])) {
                 crate::ofail(ctx, &format!("dup-accepted:prover:{}", shape_class(b)), "multi_open accepts a query list that repeats a (polynomial, point) pair", json!({"shape": shape_of(b), "line": line}));
@@ -643,15 +758,15 @@ pub fn verify_case(ctx: &mut Ctx, b: &Base, p: &Proved, vqs: &[VQ], t: &Tamper, 
         Tamper::Pi(d) => (Fq::ZERO, *d),
         _ => (Fq::ZERO, Fq::ZERO),
     };
-    let line = format!("verify K={} T={},{} V={} Q={} X={}", hexl(&p.dlogs), fe_hex(&df), fe_hex(&dp), view, fmt_vqs(vqs), hexl(&out.ch));
+    let line = format!("verify K={} T={},{} V={} Q={} X={}{}", hexl(&p.dlogs), fe_hex(&df), fe_hex(&dp), view, fmt_vqs(vqs), hexl(&out.ch), pool_tag());
     let ans = if out.panicked.is_some() { "panic".to_string() } else { format!("ev={} {}", out.ev, out.ans) };
-    ctx.case(&format!("verify-{what}"), true, &line, &ans);
+    ctx.case(&format!("verify-{}{what}", pool_kind()), true, &line, &ans);
     // the intermediate scalars of multi_prepare (q_eval_sets, r_evals in fold order, f_eval, v)
     // against the model, for runs with an untouched proof or a tampered q evaluation
     if matches!(t, Tamper::None | Tamper::Q(..)) {
         if let Some(tr) = &out.trace {
-            let line = format!("vtrace V={} Q={} X={}", view, fmt_vqs(vqs), hexl(&out.ch));
-            ctx.case(&format!("vtrace-{what}"), true, &line, tr);
+            let line = format!("vtrace V={} Q={} X={}{}", view, fmt_vqs(vqs), hexl(&out.ch), pool_tag());
+            ctx.case(&format!("vtrace-{}{what}", pool_kind()), true, &line, tr);
         }
     }
     let all_true = vqs.iter().all(|q| claim_true(&p.table, q));
@@ -668,11 +783,11 @@ pub fn verify_case(ctx: &mut Ctx, b: &Base, p: &Proved, vqs: &[VQ], t: &Tamper, 
     } else if out.ans == "err dup" {
         crate::ofail(ctx, &format!("dup-spurious:verifier:{}:{}", what, shape_class(b)), "multi_prepare refuses a duplicate-free query list as duplicated", json!({"shape": shape_of(b), "corruption": what, "queries": fmt_vqs(vqs), "prove_salt": p.salt}));
     }
-    let detail = || json!({"shape": shape_of(b), "corruption": what, "tamper": t.fmt(), "queries": fmt_vqs(vqs), "k": b.k, "result": out.ans, "panic": out.panicked, "prove_salt": p.salt});
+    let detail = || json!({"shape": shape_of(b), "rayon_pool": pool(), "corruption": what, "tamper": t.fmt(), "queries": fmt_vqs(vqs), "k": b.k, "result": out.ans, "panic": out.panicked, "prove_salt": p.salt});
     if honest {
         if !out.accepted {
             crate::ofail(ctx, 
-                &format!("honest-rejected:{}:{}", verdict, shape_class(b)),
+                &format!("honest-rejected:{}:{}{}", verdict, pool_kind().replace('-', ":"), shape_class(b)),
                 "the multi-opening proof produced for the true evaluations does not verify",
                 detail(),
             );
